@@ -142,7 +142,11 @@ def button_monitor(case, run, dr) -> Optional[str]:
             prev = sample
         # the host Button driven with the same sampled signal clicks equally often when it starts released
         if meta.get("handlers", [meta["handler"]] * len(pins))[i] and signal and signal[0] == 0:
-            from Reduino.Sensors import Button
+            # the project's own class (a differential run in this process may have installed a traced subclass
+            # under the package name)
+            import importlib
+
+            Button = importlib.import_module("Reduino.Sensors.Button").Button
 
             count: List[int] = []
             it = iter(signal)
